@@ -44,9 +44,13 @@ def run(ctx):
         ctx.tlc("MemoryMC", "mc.cfg", extra_files=files, tag="design:" + scale)
         got = []
         got += ctx.tlc("MemoryMC", "g1.cfg", extra_files=files, design=False, tag="gen1:" + scale)["emitted"]
-        got += ctx.tlc("MemoryMC", "g2.cfg", extra_files=files, design=False, tag="gen2:" + scale)["emitted"]
+        g2 = ctx.tlc("MemoryMC", "g2.cfg", extra_files=files, design=False, tag="gen2:" + scale)["emitted"]
+        if not q:       # all triples of core operations for every declaration: about a million per scale; one sixth per run (by seed)
+            ctx.extra.setdefault("triples", {})[scale] = {"generated": len(g2), "replayed_slice": "%d of 6" % (ctx.seed % 6)}
+            g2 = g2[ctx.seed % 6::6]
+        got += g2
         got += ctx.tlc("MemoryMC", "sim.cfg", extra_files=files, design=False, tag="sim:" + scale, workers=1,
-                       simulate="num=%d" % (1500 if q else 20000), depth=12)["emitted"]
+                       simulate="num=%d" % (1500 if q else 10000), depth=12)["emitted"]
         for b in got:
             b["scale"], b["topu"] = ppu, topu
         ctx.extra.setdefault("behaviours", {})[scale] = len(got)
@@ -79,7 +83,7 @@ def run(ctx):
     ctx.extra["heavy_behaviours"] = {"enumerated": len(heavy), "replayed": len([b for b in beh if b.get("heavy")])}
     ctx.extra["enumerated_total"] = total
     ctx.exhaustive = len(heavy) <= nheavy
-    results = ctx.replay("replay-memory", beh, timeout=3000)
+    results = ctx.replay("replay-memory", beh, timeout=3400)
     for b, r in zip(beh, results):
         for f in r.get("fails", []):
             ctx.fail(f["key"], f["msg"], replay=b)
